@@ -128,7 +128,7 @@ class Model:
             if b is None or b.id in seen:
                 continue
             seen.add(b.id)
-            if not b.names and e['load'] * 512 < b.length:
+            if not b.names and e['load'] * 512 < b.length and e.get('media') != 'floppy':     # (a diskette image has the size of its medium)
                 b.length = e['load'] * 512
                 self.classes.add('hidden-boot-file-cut-to-load-size')
 
@@ -564,7 +564,7 @@ class Model:
             raise Skip('avoid:hidden-bootfile')
         kw = {{'iso': 'iso_path', 'jol': 'joliet_path', 'udf': 'udf_path'}[ns]: path}
         if b.boot_refs > 0 and len(b.names) == 1 and any(
-                e['blob'] == b.id and e['load'] * 512 < ((b.length + 2047) // 2048) * 2048 for e in (self.boot or {}).get('entries', [])):
+                e['blob'] == b.id and e.get('media') != 'floppy' and e['load'] * 512 < ((b.length + 2047) // 2048) * 2048 for e in (self.boot or {}).get('entries', [])):
             # a boot file without any name survives in the image only as `load size` virtual sectors: how long it
             # "is" after a reopen is not defined by the format, so this corner is left out (counted)
             raise Skip('boot file with a short load size would lose its last name')
